@@ -308,6 +308,11 @@ def run_case(case: dict) -> Result:
                 if omap(root) != before:
                     return _done(res.bad(f'unclaim-claim:interleaving:{type(m).__name__}.{p.name}', f'unclaim_interleaving_comments() then claim_interleaving_comments(those) '
                                          f'does not restore the attribution: {_mdiff(before, omap(root))} in {text!r}'), classes)
+    # (5) automatic attribution run later follows the same order: one released comment (or one list's released entries), everything else as
+    # parsed, then auto_claim_comments() on the document gives back what parsing gave
+    bad5 = _release_then_auto(root, text, classes)
+    if bad5:
+        return _done(res.bad(*bad5), classes)
     # program of attribution calls: uniqueness after every call
     for op in case.get('ops', []):
         try:
@@ -339,6 +344,44 @@ def run_case(case: dict) -> Result:
             elif omap(cp) != omap(root):
                 res.bad('copy-attribution-differs', f'a deep copy attributes comments differently: {_mdiff(omap(root), omap(cp))} in {text!r}')
     return _done(res, classes)
+
+
+def _release_then_auto(root: Any, text: str, classes: set) -> Optional[tuple]:
+    for m in commentable(root):
+        for side in ('leading', 'trailing'):
+            if vars(m).get('_' + side + '_comment') is None:
+                continue
+            before = omap(root)
+            getattr(m, 'unclaim_' + side + '_comment')()
+            try:
+                root.auto_claim_comments()
+            except Exception as e:  # noqa: BLE001
+                return (f'unclaim-auto:{side}-raised:{type(e).__name__}', f'unclaim_{side}_comment() on a {type(m).__name__} then auto_claim_comments() on the '
+                        f'document raised {e!r} in {text!r}')
+            classes.add('stage:unclaim-auto')
+            if omap(root) != before:
+                return (f'unclaim-auto:{side}:{type(m).__name__}', f'unclaim_{side}_comment() on a {type(m).__name__} then auto_claim_comments() on the document '
+                        f'does not give the attribution parsing gave: {_mdiff(before, omap(root))} in {text!r}')
+    for ms in OPS.index_models(root).values():
+        for m in ms:
+            for p in S.props_of(m):
+                if p.kind != 'clist':
+                    continue
+                w = getattr(m, p.name)
+                if not any(isinstance(x, BlockComment) for x in w):
+                    continue
+                before = omap(root)
+                w.unclaim_interleaving_comments()
+                try:
+                    root.auto_claim_comments()
+                except Exception as e:  # noqa: BLE001
+                    return (f'unclaim-auto:interleaving-raised:{type(e).__name__}', f'unclaim_interleaving_comments() on {type(m).__name__}.{p.name} then '
+                            f'auto_claim_comments() on the document raised {e!r} in {text!r}')
+                classes.add('stage:unclaim-auto')
+                if omap(root) != before:
+                    return (f'unclaim-auto:interleaving:{type(m).__name__}.{p.name}', f'unclaim_interleaving_comments() on {type(m).__name__}.{p.name} then '
+                            f'auto_claim_comments() on the document does not give the attribution parsing gave: {_mdiff(before, omap(root))} in {text!r}')
+    return None
 
 
 def _done(res: Result, classes: set) -> Result:
